@@ -51,6 +51,28 @@ def case_st(draw):
         case["refine_p"] = draw(st.lists(st.sampled_from([0.05, 0.15, 0.3, 0.5] if case["levelmin"] < 3 else
                                                          [0.02, 0.05, 0.1, 0.3]), min_size=1, max_size=4))
         case["max_cells"] = 3500
+    regime = draw(st.sampled_from(["std", "std", "std", "many_cpus", "deep"]))
+    case["regime"] = regime
+    if regime == "many_cpus" and case["ndim"] == 3:
+        # domains as small as a levelmin cube
+        case["ncpu"] = draw(st.sampled_from([24, 48, 64]))
+        case["levelmin"] = draw(st.sampled_from([2, 3]))
+        case["levelmax"] = case["levelmin"] + draw(st.integers(1, 2))
+        case["refine_p"] = [draw(st.sampled_from([0.02, 0.05]))]
+        case["key_mode"] = draw(st.sampled_from(["uniform", "random"]))
+        case["ghost_p"] = draw(st.sampled_from([0.0, 0.1]))
+        case["grav"] = False
+        case["rt_vars"] = []
+        case["nboundary"] = 0
+    elif regime == "deep" and case["ndim"] == 3:
+        # levels beyond 14, the deepest cells hugging a coarse cube boundary from below
+        case["levelmin"] = draw(st.sampled_from([2, 3]))
+        case["levelmax"] = draw(st.integers(15, 17))
+        case["refine_p"] = [0.0]
+        case["deep_toward"] = [draw(st.sampled_from([0.25, 0.5, 0.75])) for _ in range(3)]
+        case["ncpu"] = draw(st.integers(3, 9))
+        case["key_mode"] = draw(st.sampled_from(["uniform", "random", "cube"]))
+        case["nboundary"] = 0
     preds = []
     for _ in range(draw(st.integers(3, 6))):
         p = {"pos": draw(rs.pos_preds(case["ndim"], case["levelmax"],
@@ -70,7 +92,7 @@ def selective(case, r):
     try:
         exp_all = rm.expected_mesh(m)
         ndim = case["ndim"]
-        r.label(f"ndim_{ndim}", "ordering_" + case["ordering"], "keys_" + case["key_mode"])
+        r.label(f"ndim_{ndim}", "ordering_" + case["ordering"], "keys_" + case["key_mode"], "regime_" + case.get("regime", "std"))
         for spec in case["preds"]:
             res = rs.resolve(spec, m, exp_all)
             keep = rs.mask(res, m, exp_all)
